@@ -104,6 +104,10 @@ func (interp *Interpreter) gta(root *node, rpath, importPath, pkgName string) ([
 				sc.sym[dest.ident] = &symbol{kind: varSym, global: true, index: sc.add(typ), typ: typ, rval: val, node: n}
 				if n.anc.kind == constDecl {
 					sc.sym[dest.ident].kind = constSym
+					if i < n.nleft-1 {
+						// iota is incremented after each constant spec, not after each name.
+						continue
+					}
 					if childPos(n) == len(n.anc.child)-1 {
 						sc.iota = 0
 					} else {
